@@ -179,3 +179,89 @@ func TestC15_ReplayBlocked(t *testing.T) {
 		}
 	}
 }
+
+// TestC15_WideClose: Close with many transactions in flight (Start and Do mixed): every handler runs
+// exactly once with the closed error before Close returns, every Do returns, nothing is written afterwards.
+func TestC15_WideClose(t *testing.T) {
+	rec := evid.For("C15")
+	c15Notes(rec)
+	for _, n := range []int{1, 17, 600, evid.Pick(3000, 20000)} {
+		for _, noConnClose := range []bool{false, true} {
+			c := map[string]any{"in_flight": n, "no_conn_close": noConnClose}
+			problem := func() string {
+				w, err := sim.NewWorld(sim.Options{RTO: time.Hour, NoConnClose: noConnClose})
+				if err != nil {
+					return "harness: " + err.Error()
+				}
+				defer w.Release()
+				hs := make([]counter, n)
+				var afterClose atomic.Int32
+				var closeReturned atomic.Bool
+				var doWG sync.WaitGroup
+				for i := 0; i < n; i++ {
+					i := i
+					h := func(e stun.Event) {
+						if closeReturned.Load() {
+							afterClose.Add(1)
+						}
+						hs[i].handler()(e)
+					}
+					if i%50 == 7 {
+						doWG.Add(1)
+						started := make(chan struct{})
+						go func() {
+							defer doWG.Done()
+							close(started)
+							_ = w.Client.Do(request(i, 28), h)
+						}()
+						<-started
+					} else if err := w.Client.Start(request(i, 28), h); err != nil {
+						return fmt.Sprintf("Start %d returned %v", i, err)
+					}
+				}
+				// let the Do goroutines register (they write synchronously before waiting)
+				for deadline := time.Now().Add(10 * time.Second); ; {
+					writes, _ := w.Conn.Snapshot()
+					if len(writes) >= n || time.Now().After(deadline) {
+						break
+					}
+					time.Sleep(200 * time.Microsecond)
+				}
+				writesBefore, _ := w.Conn.Snapshot()
+				if cerr := closeWorld(w, noConnClose); cerr != nil {
+					return fmt.Sprintf("Close returned %v", cerr)
+				}
+				closeReturned.Store(true)
+				doDone := make(chan struct{})
+				go func() { doWG.Wait(); close(doDone) }()
+				select {
+				case <-doDone:
+				case <-time.After(30 * time.Second):
+					return "a Do in flight at Close did not return within 30 s"
+				}
+				for i := range hs {
+					if got := int(hs[i].n.Load()); got != 1 || hs[i].kind() != "closed" {
+						return fmt.Sprintf("transaction %d of %d in flight at Close: handler ran %d times (%s), want once with the closed error", i, n, got, hs[i].kind())
+					}
+				}
+				if afterClose.Load() != 0 {
+					return fmt.Sprintf("%d handlers were invoked after Close had returned", afterClose.Load())
+				}
+				if writesAfter, _ := w.Conn.Snapshot(); len(writesAfter) != len(writesBefore) {
+					return fmt.Sprintf("%d writes during/after Close", len(writesAfter)-len(writesBefore))
+				}
+				if g := leakedGoroutines(); g != "" {
+					return "goroutine left behind after Close:\n" + g
+				}
+
+				return ""
+			}()
+			rec.Case("wide-close", evid.NewH().I(n).Str(fmt.Sprint(noConnClose)).Sum(), n > 1, func() any { return c })
+			if problem != "" {
+				pbt.Fail(t, rec, "ticker", c, "%s", problem)
+
+				return
+			}
+		}
+	}
+}
